@@ -95,6 +95,7 @@ def judge_eval(ctx, case, r, m):
 
 
 def eval_suite(ctx, name, lines, res, mode='eval'):
+    if not lines: return
     real = run_sharded(HBIN, mode, lines)
     model = run_sharded(MBIN, 'eval', lines)
     assert len(real) == len(model) == len(lines), (name, len(real), len(model), len(lines))
@@ -144,6 +145,9 @@ def corpus_lines(name):
         if not l or l.startswith('#'): continue
         c = json.loads(l)
         if 'doc' in c and 'tdoc' not in c: c['tdoc'] = tag(c['doc'])
+        if 'new' in c and 'tnew' not in c: c['tnew'] = tag(c['new'])
+        if 'loc' in c and 'tloc' not in c:
+            c['tloc'] = None if c['loc'] is None else [({"k": [ord(ch) for ch in st]} if isinstance(st, str) else {"i": st}) for st in c['loc']]
         out.append(json.dumps(c, ensure_ascii=False))
     return out
 
@@ -162,6 +166,7 @@ def judge_parse(ctx, s, r, m):
 
 
 def parse_suite(ctx, name, lines, res):
+    if not lines: return
     real = run_sharded(HBIN, 'parse', lines)
     model = run_sharded(MBIN, 'parse', lines)
     assert len(real) == len(model) == len(lines), (name, len(real), len(model), len(lines))
@@ -206,6 +211,7 @@ def judge_ref(ctx, c, r, m):
 
 
 def ref_suite(ctx, name, lines, res):
+    if not lines: return
     real = run_sharded(HBIN, 'ref', lines)
     model = run_sharded(MBIN, 'ref', lines)
     assert len(real) == len(model) == len(lines)
@@ -229,6 +235,7 @@ def ref_suite(ctx, name, lines, res):
 
 # ------------------------------------------------------------------------------------------------ regex (C10)
 def regex_suite(ctx, name, lines, res):
+    if not lines: return
     real = run_sharded(HBIN, 'regex', lines)
     model = run_sharded(MBIN, 'regex', lines)
     assert len(real) == len(model) == len(lines)
@@ -252,6 +259,7 @@ def regex_suite(ctx, name, lines, res):
 
 # ------------------------------------------------------------------------------------------------ hist (C12)
 def hist_suite(ctx, name, lines, res):
+    if not lines: return
     real = run_lines(HBIN, 'hist', lines, timeout=300)
     model = run_lines(MBIN, 'hist', lines, timeout=300)
     assert len(real) == len(model) == len(lines)
@@ -281,6 +289,7 @@ def hist_suite(ctx, name, lines, res):
 
 # ------------------------------------------------------------------------------------------------ generic (C15)
 def generic_suite(ctx, name, lines, res):
+    if not lines: return
     rv = run_sharded(HBIN, 'eval', lines)
     rg = run_sharded(HBIN, 'generic', lines)
     model = run_sharded(MBIN, 'eval', lines)
@@ -304,6 +313,7 @@ def generic_suite(ctx, name, lines, res):
 
 # ------------------------------------------------------------------------------------------------ groups (C13)
 def group_suite(ctx, name, lines, res):
+    if not lines: return
     real = run_sharded(HBIN, 'eval', lines)
     model = run_sharded(MBIN, 'eval', lines)
     assert len(real) == len(model) == len(lines)
@@ -333,6 +343,7 @@ def group_suite(ctx, name, lines, res):
 
 # ------------------------------------------------------------------------------------------------ ladders (C08)
 def ladder_suite(ctx, name, lines, res):
+    if not lines: return
     """harness only, one process per case (isolation): outcome must be ok/err within the time limit"""
     info = collections.Counter()
     for ln in lines:
@@ -362,15 +373,16 @@ def run(ctx, round_no=0):
     p = ctx.prop; S = ctx.scale
     seed = ctx.seed + 1000 * round_no
     first = round_no == 0
+    g = (lambda *a: []) if ctx.opts.get('corpus-only') else gen
     pre = (kf_lines(ctx) + corpus_lines('eval.jsonl')) if first else []
     if p in ('C01', 'C02', 'C03'):
         res.rule = ('(query string, document) pairs: known-finding witnesses and regression corpus first, exhaustive small-scope enumeration, structured random '
                     'queries typed against a generated document; compared through the property projection (C01 multiset of (address-derived location, value); '
                     'C02 ordered locations; C03 set of (location, path, re-query ok)); non-trivial = distinct pair with a non-empty real result')
         eval_suite(ctx, 'witnesses+corpus', pre, res) if pre else None
-        if first: eval_suite(ctx, 'small-scope', gen('gen_small.py', p, seed, 6000 * S), res)
-        eval_suite(ctx, 'random', gen('gen_eval.py', seed, 12000 * S), res)
-        if p == 'C03': eval_suite(ctx, 'paths-of-all-nodes', gen('gen_paths.py', seed, 3000 * S), res)
+        if first: eval_suite(ctx, 'small-scope', g('gen_small.py', p, seed, 6000 * S), res)
+        eval_suite(ctx, 'random', g('gen_eval.py', seed, 12000 * S), res)
+        if p == 'C03': eval_suite(ctx, 'paths-of-all-nodes', g('gen_paths.py', seed, 3000 * S), res)
     elif p in ('C04', 'C05', 'C10', 'C11', 'C14'):
         n = {'C04': 14000, 'C05': 10000, 'C10': 8000, 'C11': 0, 'C14': 10000}[p] * S
         if p == 'C04' and S > 1: n = 0
@@ -381,41 +393,44 @@ def run(ctx, round_no=0):
                     'C14': 'five extension functions x argument universe (arrays incl. nested/empty, non-arrays, missing)'}[p] + \
                    '; projection = kept nodes by address-derived location; non-trivial = distinct case with a non-empty real result'
         eval_suite(ctx, 'witnesses+corpus', pre, res) if pre else None
-        eval_suite(ctx, 'targeted', gen('gen_targeted.py', p.lower(), seed, n), res)
-        if p == 'C10': regex_suite(ctx, 'regex-dialect', gen('gen_regex.py', seed, 8000 * S), res)
-        if p in ('C05',): eval_suite(ctx, 'random', gen('gen_eval.py', seed, 4000 * S), res)
+        eval_suite(ctx, 'targeted', g('gen_targeted.py', p.lower(), seed, n), res)
+        if p == 'C10': regex_suite(ctx, 'regex-dialect', g('gen_regex.py', seed, 8000 * S), res)
+        if p in ('C05',): eval_suite(ctx, 'random', g('gen_eval.py', seed, 4000 * S), res)
     elif p in ('C06', 'C07'):
         res.rule = ('query strings: ABNF-derived sentences with random optional blanks, both quote styles, escapes, number formats; single-edit mutants; '
                     'random token soup. Oracle Rfc.verdict (ABNF + validity rules). non-trivial = distinct string that is valid (C06) / invalid (C07)')
         parse_suite(ctx, 'corpus', corpus_lines_raw('parse.txt'), res) if first and corpus_lines_raw('parse.txt') else None
-        parse_suite(ctx, 'abnf-sentences+mutants', gen('gen_abnf.py', seed, 15000 * S), res)
-        parse_suite(ctx, 'token-soup', gen('gen_parse.py', seed, 15000 * S), res)
+        parse_suite(ctx, 'abnf-sentences+mutants', g('gen_abnf.py', seed, 15000 * S), res)
+        parse_suite(ctx, 'token-soup', g('gen_parse.py', seed, 15000 * S), res)
     elif p == 'C08':
         res.rule = ('all parser strings of C06/C07 plus integer extremes in every integer position, scalar/empty documents and nesting ladders, run in isolated '
                     'worker processes with overflow checks; outcome must be Ok/Err (no panic, abort, timeout); evaluation of a parsed query must be Ok')
-        parse_suite(ctx, 'abnf-sentences+mutants', gen('gen_abnf.py', seed, 8000 * S), res)
-        parse_suite(ctx, 'token-soup', gen('gen_parse.py', seed, 8000 * S), res)
-        eval_suite(ctx, 'extremes', gen('gen_extreme.py', seed, 6000 * S), res)
-        eval_suite(ctx, 'random', gen('gen_eval.py', seed, 6000 * S), res)
+        if first: parse_suite(ctx, 'corpus', corpus_lines_raw('parse.txt'), res)
+        if first: eval_suite(ctx, 'corpus-eval', corpus_lines('eval.jsonl'), res)
+        parse_suite(ctx, 'abnf-sentences+mutants', g('gen_abnf.py', seed, 8000 * S), res)
+        parse_suite(ctx, 'token-soup', g('gen_parse.py', seed, 8000 * S), res)
+        eval_suite(ctx, 'extremes', g('gen_extreme.py', seed, 6000 * S), res)
+        eval_suite(ctx, 'random', g('gen_eval.py', seed, 6000 * S), res)
         if first: ladder_suite(ctx, 'nesting-ladders', gen('gen_ladder.py', ctx.tier), res)
     elif p == 'C09':
         res.rule = ('(document, path, new value): Normalized Path of every kind of node (names with / ~ quotes digits blanks), one-step-off absent locations, '
                     'non-path queries; compared: found node by address, write result, whole document after the write; spec = lens laws on locations')
-        ref_suite(ctx, 'ref', gen('gen_ref.py', seed, 12000 * S), res)
+        if first and corpus_lines('ref.jsonl'): ref_suite(ctx, 'corpus', corpus_lines('ref.jsonl'), res)
+        ref_suite(ctx, 'ref', g('gen_ref.py', seed, 12000 * S), res)
     elif p == 'C12':
         res.rule = ('histories: seeded sequences of evaluations interleaving several queries and documents, each also by pre-parsed query and from N threads '
                     'sharing one Arc; plus the three entry points compared position by position on random cases')
-        hist_suite(ctx, 'histories', gen('gen_hist.py', seed, 150 * S), res)
-        eval_suite(ctx, 'entry-points', gen('gen_eval.py', seed, 8000 * S), res)
+        hist_suite(ctx, 'histories', g('gen_hist.py', seed, 150 * S), res)
+        eval_suite(ctx, 'entry-points', g('gen_eval.py', seed, 8000 * S), res)
     elif p == 'C13':
         res.rule = ('metamorphic: abstract queries rendered into 6 random spellings each (shorthand/quotes, .* vs [*], optional parentheses, number spellings, '
                     'blanks at every S); all spellings must agree on the real crate, and each agrees with the model')
-        group_suite(ctx, 'spellings', gen('gen_targeted.py', 'c13', seed, 12000 * S), res)
+        group_suite(ctx, 'spellings', g('gen_targeted.py', 'c13', seed, 12000 * S), res)
     elif p == 'C15':
         res.rule = ('the same (query, document) cases through serde_json::Value and through a second Queryable type (members in a Vec, separate unsigned '
                     'variant); paths and values must be equal position by position; both equal the model')
-        generic_suite(ctx, 'second-queryable', gen('gen_eval.py', seed, 10000 * S), res)
-        generic_suite(ctx, 'targeted-functions', gen('gen_targeted.py', 'c10', seed, 3000 * S) + gen('gen_targeted.py', 'c14', seed, 3000 * S) + gen('gen_targeted.py', 'c04', seed, 3000 * S), res)
+        generic_suite(ctx, 'second-queryable', g('gen_eval.py', seed, 10000 * S), res)
+        generic_suite(ctx, 'targeted-functions', g('gen_targeted.py', 'c10', seed, 3000 * S) + g('gen_targeted.py', 'c14', seed, 3000 * S) + g('gen_targeted.py', 'c04', seed, 3000 * S), res)
     else:
         raise SystemExit('unknown property ' + p)
     return res
